@@ -394,6 +394,30 @@ def run(ctx):
         msg = C14.oracle(ttl, hooklog, executed, info)
         if msg and ('answered' in msg or 'twice' in msg):
             ctx.violation(f'a response matched a request that was no longer outstanding: {msg}', {'function': 'concurrent', 'script': repr(script)[:1500], 'ttl': str(ttl)})
+    # ---- duplicate, late and unsolicited responses that carry the number of a segment of a message that already has its outcome:
+    #      the bookkeeping of the segments outlives the request store - nothing may be attributed a second time
+    from harness import C01 as _C01
+    for k in (2, 3):
+        for first_fails in (False, True):
+            hist = [('put', 10 + i, 100 + i, 1, (9, i + 1, k)) for i in range(k)]
+            for i in range(k):
+                hist.append(('resp', 20 + i, 0x80000004, 100 + i, 0x58 if (first_fails and i == 0) else 0, 0 if (first_fails and i == 0) else 500 + i))
+            n0 = len(hist)
+            for i in range(k):
+                hist.append(('resp', 30 + i, 0x80000004, 100 + i, 0, 600 + i))          # duplicate / late submit_sm_resp
+                hist.append(('resp', 40 + i, 0x80000000, 100 + i, 3, 0))                 # unsolicited generic_nack
+                hist.append(('resp', 50 + i, 0x80000015, 100 + i, 0, 0))                 # wrong type
+            out, _e = asyncio.run(_C01.run_real(hist))
+            obs = _C01.observe(out)
+            ctx.traces += 1
+            ctx.case(('late_responses_segmented', k, first_fails), nontrivial=True)
+            for ev, o in list(zip(hist, obs))[n0:]:
+                attributed = [x for x in o if x[0] == 4 or (x[0] == 1 and x[2] != 0)]
+                if attributed:
+                    ctx.violation(f'a late / duplicate / unsolicited response {ev[2]:#x} with the sequence number {ev[3]} of a segment whose message already had its '
+                                  f'outcome produced another outcome attributed to message {[x[1] if x[0] == 4 else x[2] for x in attributed]}',
+                                  {'function': 'late_segment_responses', 'history': [list(e) for e in hist]})
+                    break
     # ---- whole sessions with connection losses while requests are outstanding
     for j in range(300 if ctx.thorough else 14):
         n_msgs = rng.randint(2, 7)
